@@ -875,7 +875,14 @@ type vEventDelegate struct {
 	m **Memberlist
 }
 
+// vOverlapHook, when set, runs at the start of every delegate callback, before the sink takes its own lock: the
+// overlap mode of the view replay uses it to deliver a second claim while the first is inside a callback
+var vOverlapHook func()
+
 func (d *vEventDelegate) note(kind string, nd *Node) {
+	if h := vOverlapHook; h != nil {
+		h()
+	}
 	gid := vGoid()
 	s := d.s
 	s.mu.Lock()
@@ -913,6 +920,9 @@ type vConflictDelegate struct {
 }
 
 func (d *vConflictDelegate) NotifyConflict(existing, other *Node) {
+	if h := vOverlapHook; h != nil {
+		h()
+	}
 	gid := vGoid()
 	s := d.s
 	s.mu.Lock()
@@ -931,6 +941,9 @@ type vAliveDelegate struct {
 }
 
 func (d *vAliveDelegate) NotifyAlive(peer *Node) error {
+	if h := vOverlapHook; h != nil {
+		h()
+	}
 	if d.veto != "" && string(peer.Meta) == d.veto {
 		return fmt.Errorf("vetoed")
 	}
